@@ -373,7 +373,9 @@ impl World {
         let mut services = Vec::new();
         for p in protos {
             let name = ProtocolName::from(p.name);
-            let svc = mgr.register_protocol(name.clone(), Vec::new(), ProtocolCodec::UnsignedVarint(Some(1024)), p.timeout, p.keep_alive);
+            // every protocol also answers to one fallback name (`<name>/fb`)
+            let fallback = ProtocolName::from(format!("{}/fb", p.name));
+            let svc = mgr.register_protocol(name.clone(), vec![fallback], ProtocolCodec::UnsignedVarint(Some(1024)), p.timeout, p.keep_alive);
             services.push((name, Some(svc)));
         }
         for l in listen {
@@ -775,8 +777,13 @@ impl World {
 
     /// The remote opens a substream of protocol `svc` on connection `cid`.
     pub fn inbound_substream(&mut self, cid: Cid, svc: usize, stream: litep2p::yamux::Stream) -> bool {
+        self.inbound_substream_named(cid, svc, stream, false)
+    }
+
+    /// ... negotiated under the protocol's main name or under its fallback name.
+    pub fn inbound_substream_named(&mut self, cid: Cid, svc: usize, stream: litep2p::yamux::Stream, via_fallback: bool) -> bool {
         self.next_step();
-        let name = self.services[svc].0.clone();
+        let name = if via_fallback { ProtocolName::from(format!("{}/fb", self.services[svc].0)) } else { self.services[svc].0.clone() };
         {
             let mut sh = self.shared.lock();
             let Some(conn) = sh.live.iter_mut().find(|c| c.cid == cid) else { return false };
